@@ -225,6 +225,7 @@ def r2(report, db, cg, M, S):
     _run = M.method(M.thread, '_run')
     paths = S.run(run)
     joins = skipped = unguarded = 0
+    stuck = None
     promo_bad = None
     promoted = 0
     uncleared = None
@@ -242,6 +243,21 @@ def r2(report, db, cg, M, S):
         if not clr or (last and last[-1] != clr[-1]) or (
                 ri and clr[-1] < ri[-1]):
             uncleared = p
+        # a successor occupies the successor slot until it promotes itself:
+        # every exit must have emptied that slot too, whether or not _run()
+        # was reached -- otherwise the connection looks busy for ever
+        if t_not(none_fact(p.conds, prev)) and not [
+                e for e in evs if e.kind == 'store'
+                and struct(e.base) == conn
+                and e.attr == 'new_networking_thread'
+                and e.value == ('const', None)
+                and lock_held(e.held, conn, M)] and not (
+                    p.raises and len(p.outcome) > 3) and not any(
+                        # joining / asking a started thread other than
+                        # oneself does not fail
+                        e.kind == 'call' and e.raised and e.method() in (
+                            'join', 'is_alive') for e in evs):
+            stuck = p
         if not ri:
             continue
         r0 = ri[0]
@@ -289,6 +305,17 @@ def r2(report, db, cg, M, S):
     if not any(e.calls(_run) for p in paths for e in p.calls()):
         raise AnalysisError('NetworkingThread.run does not call _run',
                             run.node, rel(run.path))
+    if stuck is not None:
+        report.violation(R, 'handover:successor-slot-left', run.path,
+                         stuck.outcome[2] if len(stuck.outcome) > 2 and
+                         hasattr(stuck.outcome[2], 'lineno') else run.node,
+                         run.qualname, 'a successor thread can end (%s) '
+                         'without emptying new_networking_thread [%s]: the '
+                         'connection refuses every later connect() as '
+                         '"existing connection"' % (stuck.outcome[0],
+                                                    stuck.cond_text()))
+    else:
+        report.ok(R, 'a successor empties the successor slot on every exit')
     if not joins:
         report.violation(R, 'handover:no-join', run.path, run.node,
                          run.qualname, 'a successor thread never waits for '
